@@ -27,8 +27,28 @@ Spaces (DESIGN.md section 4, C04):
   bridge  : hf_model_wrapper / set_model_flat_parameter / get_model_flat_parameter on every registration order x frozen subset
             x stale-grad state x custom grad_backward of a 3-tensor model with an exactly known polynomial loss.
   model   : losses of to_stiefel_polar, VarQEC, VarQECUnitary, EntanglementFormationModel, ConcurrenceModel,
-            DensityMatrixGMEModel, QueryGroverQuantumModel at lattice points; oracle = 4th-order (Richardson) central differences
-            of the model's own forward.
+            DensityMatrixGMEModel, QueryGroverQuantumModel (thorough: + AutodiffCHAREE, PureBosonicExt, VarQEC with 3 code words,
+            the Stiefel('polar') module) at lattice points; oracle = 4th-order (Richardson) central differences of the model's own forward.
+
+Coordinates added after the coverage audit (all enumerated, none sampled):
+  prog    : second alphabet 'ext' (3 and 4 qubits): controlled_double_qubit_gate, triple_qubit_gate, a user ParameterGate('control', rzz) on
+            two targets, positional placeholders circ.P[k], leaf placeholders circ.P['name'], requires_grad left to default_requires_grad,
+            requires_grad_(False) after creation, name= ; on 4 qubits the control sets behind every reduce_shape_index pattern.
+            At the generic point additionally (configurations flagged 'extras'):
+              - memory form of the cotangent: loss = Re(c_eff . psi) written as sum(psi.conj()*c) (conjugate bit), vdot, flip, strided
+                slice, transposed view, expanded sum,
+              - interleaving: forward(theta); {torch.no_grad forward of the same wrapper at theta+1 | forward of a SECOND wrapper built on
+                the same Circuit at theta+1}; backward of the first -> gradient at theta,
+              - tensor kind of the initial state (a differentiable input): complex128 non-contiguous view, real float64 leaf, complex64 leaf,
+                lazily conjugated view: parameter gradient and the gradient delivered to the initial state against the reference.
+  psd     : d = 1; a tiny eigenvalue 1e-8 / 1e-12 (positive definite: inside the domain; decided only while c*eps*kappa < 0.1) and a
+            tiny eigenvalue next to an exact zero (outside, observed); float32 / complex64 inputs (eps(float32) tolerances); the output
+            transposed / permuted (matrix axes first, batch axes swapped, batch and matrix axes mixed) / sliced / conjugated / summed
+            before a generic linear loss: gradient == the same contraction of the basis Jacobian.
+  kl      : the empty operator sequence and sequences of length 3; conjugated / transposed / flipped / expanded cotangent.
+  bridge  : x parameter dtype {float64, float32} x {every trainable parameter used, one trainable parameter the loss does not use
+            (its gradient entry is 0)}; get_model_flat_grad == the gradient hf returned.
+PENDING: oracles that fire on the pinned tree (reported; the guarded addition is skipped and counted as pending/<flag>).
 """
 import itertools
 
@@ -44,14 +64,23 @@ RULE = ('prog: every history up to the depth bound over the stated gate/provenan
         'by the implementation (hf_model_wrapper call or one backward of the cotangent basis) compared with the dense forward-mode '
         'reference; trace = one history on which forward value, every gradient and the finite-difference guard were compared. '
         'psd/kl: state = one (function, input, batch shape), transition = one backward call of the complete cotangent basis. '
-        'bridge: state = one (registration order, frozen subset, stale flag, custom flag). model: state = one (model configuration, '
-        'lattice point). non-trivial = the observed gradient is not identically zero')
+        'bridge: state = one (registration order, frozen subset, stale flag, custom flag, parameter dtype, unused-parameter flag). model: state = one '
+        '(model configuration, lattice point). non-trivial = the observed gradient is not identically zero. Added coordinates (module docstring): '
+        'second program alphabet (new gate kinds, placeholder forms, requires_grad provenances, 4 qubits); at the generic point the memory form of '
+        'the cotangent {conj, vdot, flip, slice, transposed, expanded}, forward/backward interleaved with another forward {no_grad, second wrapper}, '
+        'the tensor kind of the initial state {complex128 view, float64, complex64, conjugated view}; psd: d=1, tiny eigenvalues, float32 inputs, '
+        'permuted / sliced / conjugated outputs; kl: sequences of length 0 and 3, cotangent forms; oracles guarded by PENDING are counted, not run')
 ASSUMPTIONS = [
+    'the initial state handed to CircuitTorchWrapper is a complex tensor (a real-dtype tensor that requires grad is outside the domain: ruled, DESIGN 9.5)',
     'kron + explicit axis permutation embedding (mc.ref.embed / controlled), qubit 0 most significant; gate formulas as documented (validated by C03 gatedef)',
     'analytic derivatives of the reference gate matrices are self-tested against finite differences of the reference matrices in prepare()',
     'the backward of a custom autograd Function is linear in the incoming cotangent (composition of einsum/matmul/slicing); at depth>=2 two generic cotangents stand for the basis',
     'Hermitian (real symmetric) inputs of the PSD functions are perturbed along Hermitian (symmetric) directions only: eigh reads one triangle, so the unconstrained derivative is not defined by the forward',
     'rank-deficient PSD inputs are outside the domain of the derivative (sqrt is not differentiable at 0)',
+    'cotangent forms (psd, kl): the basis Jacobian delivered by the implementation (itself compared with the reference) contracted with the generic cotangent is the oracle for the permuted / conjugated loss',
+    'interleaving: parameters are restored to theta before the first backward runs (torch saved tensors alias the parameters); only the state numqi keeps outside the autograd graph is under test',
+    'float32 / complex64 inputs: eps(float32) replaces eps(float64) in the derived tolerance; where c*eps*kappa >= 0.1 only finiteness is decided (counted skipped_ill_conditioned)',
+    'relative-entropy models need a full-rank model state (configurations chosen accordingly)',
     'model losses: the Richardson-extrapolated central difference of the float64 forward is the oracle; lattice points at kinks of max(.,eps) / abs are excluded by construction (generic points)',
 ]
 CHUNK = 1
@@ -692,7 +721,10 @@ def build_prog(numqi, out, env, hist, count=True):
 
 # ------------------------------------------------------------------------------------------------ cotangent forms / interleaving / input kinds
 # additions whose oracle fires on the pinned tree (reported, numqi repair pending); the guarded oracle is skipped and counted
-PENDING = {'conj_cotangent', 'interleaved_forward', 'real_q0', 'conj_q0', 'unused_parameter', 'noncontig_cotangent_psd'}
+PENDING = set()  # interleaved_forward, unused_parameter, noncontig_cotangent_psd were repaired in numqi (known_findings.json); real_q0 was ruled outside the domain
+# debugging aid for the repair: VERIF_C04_UNPEND=flag1,flag2 (or 'all') activates the guarded oracles without editing the module
+_unpend = __import__('os').environ.get('VERIF_C04_UNPEND', '')
+PENDING = set() if _unpend == 'all' else PENDING - set(_unpend.split(','))
 COT_FORMS = ('conj', 'vdot', 'flip', 'slice', 'perm', 'expand')
 INTERLEAVE = ('nograd_forward', 'second_wrapper')
 Q0_KINDS = ('complex128_view', 'real64', 'complex64', 'conj_view')
@@ -742,7 +774,8 @@ def run_extras(numqi, out, env, prog, model, n, q0_mode, x, theta, P, J_ref, kap
     tol = C_SAFE * EPS * kap * c1     # tol_J (see run_history) times the l1 norm of the cotangent it is contracted with
     site = 'sim.CircuitTorchWrapper/backward'
     hl = det['history']
-    cats = '+'.join(sorted(set(allcats))) or 'init_state'
+    # key suffix: the reverse sweep has two code paths - built-in gate kinds and user gates with their own grad_backward
+    cats = 'custom_gate' if prog.has_custom else 'builtin_gates'
     ok = True
 
     def backward_grad(loss):
@@ -759,8 +792,6 @@ def run_extras(numqi, out, env, prog, model, n, q0_mode, x, theta, P, J_ref, kap
         return True
     # ---- (C) memory forms of the cotangent
     for form in COT_FORMS:
-        if form == 'conj' and pending(out, 'conj_cotangent'):
-            continue
         out.trans()
         try:
             loss, ce = cot_form(torch, form, model.psi(), c)
@@ -805,7 +836,10 @@ def run_extras(numqi, out, env, prog, model, n, q0_mode, x, theta, P, J_ref, kap
         return ok
     eps32 = float(np.finfo(np.float32).eps)
     for kind in Q0_KINDS:
-        if (kind == 'real64' and pending(out, 'real_q0')) or (kind == 'conj_view' and pending(out, 'conj_q0')):
+        if kind == 'real64':
+            # ruled outside the domain: the simulator's state is a complex vector (every caller in the library passes complex
+            # tensors); a real-dtype tensor that requires grad cannot receive the complex cotangent of the hand-written backward
+            out.count('outside_domain/real_dtype_trainable_initial_state')
             continue
         qv = q0_ref
         if kind == 'complex128_view':
@@ -826,7 +860,7 @@ def run_extras(numqi, out, env, prog, model, n, q0_mode, x, theta, P, J_ref, kap
         try:
             psi_t = model.psi_from(q0)
             g = backward_grad((psi_t * ct).sum().real)[:P]
-            gq = leaf.grad.numpy().copy() if leaf.grad is not None else None
+            gq = leaf.grad.resolve_conj().numpy().copy() if leaf.grad is not None else None
         except Exception as e:  # noqa
             out.violation('sim.CircuitTorchWrapper/initial_state[%s]/%s' % (kind, type(e).__name__), 'forward/backward with a %s initial state for history %s raised %s: %s (at %s)' % (kind, hl, type(e).__name__, str(e)[:200], core.exc_site(e)), q0_kind=kind, **det)
             ok = False
@@ -1538,8 +1572,6 @@ def run_kl(case, out, env):
              'flip_ops': (lambda v_: (v_.flip(0) * Wt).sum().real, W[::-1]),
              'expand': (lambda v_: v_.sum().real, np.ones_like(W))}
     for form, (lossf, Wfull) in forms.items():
-        if form == 'conj' and pending(out, 'conj_cotangent'):
-            continue
         out.trans()
         w_eff = real_components(np.conj(Wfull), 'c')      # loss = Re sum(val * Wfull)
         try:
@@ -1559,7 +1591,7 @@ def run_kl(case, out, env):
 
 
 # ------------------------------------------------------------------------------------------------ flat-parameter bridge to scipy
-BRIDGE_SHAPES = {'b': (2,), 'a': (2, 2), 'w': ()}
+BRIDGE_SHAPES = {'b': (2,), 'a': (2, 2), 'w': (), 'u': (2,)}
 
 
 def bridge_poly(x, Wd, Wc):
@@ -1578,22 +1610,34 @@ def run_bridge(case, out, env):
     import torch
     A = atoms(env)
     order, frozen, stale, custom = case['order'], set(case['frozen']), case['stale'], case['custom']
+    f32, unused = case.get('dtype') == 'f32', case.get('unused', False)
+    if unused and pending(out, 'unused_parameter'):
+        return
+    tdt = torch.float32 if f32 else torch.float64
+    # float32 parameters: the loss is evaluated in float32 at the float32-rounded parameters, eps(float32) in every tolerance
+    eps = float(np.finfo(np.float32).eps) if f32 else EPS
+    rnd = (lambda v_: np.asarray(v_, dtype=np.float32).astype(np.float64)) if f32 else (lambda v_: np.asarray(v_, dtype=np.float64))
     sizes = {k: int(np.prod(v)) if v else 1 for k, v in BRIDGE_SHAPES.items()}
-    # canonical (harness) variable order: a (4), b (2), w (1); initial values = pairwise separated tags
-    canon = ['a', 'b', 'w']
+    # canonical (harness) variable order: a (4), b (2), w (1) [, u (2): trainable, registered, NOT used by the loss]; initial values = pairwise separated tags
+    canon = ['a', 'b', 'w'] + (['u'] if unused else [])
+    order = list(order[:1]) + (['u'] if unused else []) + list(order[1:])
     off = {}
     c = 0
     for k in canon:
         off[k] = c
         c += sizes[k]
-    tags = A['theta'][:c].copy()
-    Wd = 1.0 + A['const'][:c]
-    Wc = np.triu(A['g'][:c * c].reshape(c, c), k=1)
+    tags = rnd(A['theta'][:c])
+    c_used = c - (sizes['u'] if unused else 0)
+    Wd = rnd(1.0 + A['const'][:c])
+    Wc = rnd(np.triu(A['g'][:c * c].reshape(c, c), k=1))
+    Wd[c_used:] = 0
+    Wc[c_used:] = 0
+    Wc[:, c_used:] = 0
 
     class Sub(torch.nn.Module):
         def __init__(self, v):
             super().__init__()
-            self.w = torch.nn.Parameter(torch.tensor(v, dtype=torch.float64), requires_grad='w' not in frozen)
+            self.w = torch.nn.Parameter(torch.tensor(v, dtype=tdt), requires_grad='w' not in frozen)
 
     class BModel(torch.nn.Module):
         def __init__(self):
@@ -1603,9 +1647,9 @@ def run_bridge(case, out, env):
                 if k == 'w':
                     self.c = Sub(v)
                 else:
-                    setattr(self, k, torch.nn.Parameter(torch.tensor(v, dtype=torch.float64), requires_grad=k not in frozen))
-            self.Wd = torch.tensor(Wd)
-            self.Wc = torch.tensor(Wc)
+                    setattr(self, k, torch.nn.Parameter(torch.tensor(v, dtype=tdt), requires_grad=k not in frozen))
+            self.Wd = torch.tensor(Wd[:c_used], dtype=tdt)
+            self.Wc = torch.tensor(Wc[:c_used, :c_used], dtype=tdt)
             self.n_custom_backward = 0
 
         def forward(self):
@@ -1617,7 +1661,7 @@ def run_bridge(case, out, env):
             model.n_custom_backward += 1
             loss.backward()
         model.grad_backward = grad_backward
-    det = dict(registration_order=order, frozen=sorted(frozen), stale_grad=stale, custom_grad_backward=custom, initial_values=tags)
+    det = dict(registration_order=order, frozen=sorted(frozen), stale_grad=stale, custom_grad_backward=custom, initial_values=tags, parameter_dtype='float32' if f32 else 'float64', unused_parameter=unused)
     out.state()
     site = 'optimize/hf_model_wrapper'
     try:
@@ -1638,13 +1682,13 @@ def run_bridge(case, out, env):
         x_full = tags.copy()
         prev = None
         for rep, scale in enumerate((1.0, -0.7, -0.7)):
-            theta = flat0 * scale + 0.1 * rep
-            x_full[tidx] = theta[pos]
+            theta = flat0.astype(np.float64) * scale + 0.1 * rep     # scipy hands float64 to the wrapper whatever the parameter dtype
+            x_full[tidx] = rnd(theta[pos])
             f_ref, g_full = bridge_poly(x_full, Wd, Wc)
             out.trans()
             fval, grad = hf(theta.copy())
             # exact polynomial of <= c^2 terms with |coefficients| <= 8, |x| <= 7: kappa = c^2 * 8 * 49
-            tol = C_SAFE * EPS * c * c * 8 * 49
+            tol = C_SAFE * eps * c * c * 8 * 49
             d2 = dict(call=rep, theta=theta, **det)
             if abs(fval - f_ref) > tol:
                 out.violation(site + '/fval/mismatch', 'hf(theta) returned fval %.12g, the loss at theta is %.12g' % (fval, f_ref), **d2)
@@ -1661,7 +1705,16 @@ def run_bridge(case, out, env):
                     cls = 'stale_grad_not_cleared'
                 out.violation(site + '/grad/' + cls, 'hf(theta)[1] = %s, true gradient in the same ordering = %s' % (g.tolist(), _scatter(pos, g_full[tidx]).tolist()), **d2)
             prev = g_full[tidx]
-            if np.abs(numqi.optimize.get_model_flat_parameter(model) - theta).max() > 0:
+            # the same gradient through the public flat-gradient reader (exactly the values hf returned, in the same order)
+            try:
+                g2 = np.asarray(numqi.optimize.get_model_flat_grad(model))
+                if g2.shape != g.shape or np.abs(g2.astype(np.float64) - g).max() > 0:
+                    out.violation('optimize/get_model_flat_grad/differs_from_hf_gradient', 'get_model_flat_grad(model) = %s after hf(theta) returned %s' % (g2.tolist(), g.tolist()), **d2)
+            except Exception as e:  # noqa
+                if core.exc_site(e) is None:
+                    raise
+                out.violation('optimize/get_model_flat_grad/%s' % type(e).__name__, 'get_model_flat_grad raised %s: %s' % (type(e).__name__, str(e)[:200]), **d2)
+            if np.abs(numqi.optimize.get_model_flat_parameter(model) - theta).max() > (eps * np.abs(theta).max() if f32 else 0):
                 out.violation(site + '/parameters_not_set', 'after hf(theta) the model parameters are not theta', **d2)
             out.trans()
             f2 = hf(theta.copy(), tag_grad=False)
@@ -1804,6 +1857,31 @@ def model_factory(numqi, name, cfg, A):
                 tmp = tmp.real if field == 'c' else tmp
                 return tmp.sum() if batch is None else (tmp * torch.arange(1, batch + 1, dtype=torch.float64)).sum()
         return M()
+    if name == 'Stiefel[polar]':
+        dim, rank, field, batch = cfg
+        C = (A['g2'][200:200 + dim * rank] + 1j * A['g'][250:250 + dim * rank]).reshape(dim, rank)
+
+        class M2(torch.nn.Module):
+            def __init__(self):
+                super().__init__()
+                self.manifold = numqi.manifold.Stiefel(dim, rank, batch_size=batch, method='polar', dtype=torch.complex128 if field == 'c' else torch.float64)
+                self.C = torch.tensor(C if field == 'c' else C.real)
+
+            def forward(self):
+                tmp = (self.manifold().conj() * self.C).sum(dim=(-2, -1))
+                tmp = tmp.real if field == 'c' else tmp
+                return tmp if batch is None else (tmp * torch.arange(1, batch + 1, dtype=torch.float64)).sum()
+        return M2()
+    if name == 'AutodiffCHAREE':
+        dA, dB, num_state, kind = cfg
+        m = numqi.entangle.AutodiffCHAREE((dA, dB), num_state, distance_kind=kind)
+        m.set_dm_target(ref_dm(A, dA * dB, None))
+        return m
+    if name == 'PureBosonicExt':
+        dA, dB, kext, kind = cfg
+        m = numqi.entangle.PureBosonicExt(dA, dB, kext, distance_kind=kind)
+        m.set_dm_target(ref_dm(A, dA * dB, None))
+        return m
     if name == 'VarQEC':
         nq, K, loss_type, shared = cfg
         circ = numqi.sim.Circuit(default_requires_grad=True)
@@ -1873,6 +1951,10 @@ MODEL_CONFIGS['thorough'] = MODEL_CONFIGS['quick'] + [
     ('to_stiefel_polar', (4, 4, 'c', None)), ('to_stiefel_polar', (5, 2, 'r', 3)), ('VarQEC', (3, 2, 'L1', False)), ('VarQEC', (4, 2, 'L2', True)), ('VarQEC', (3, 1, 'L2', False)),
     ('VarQECUnitary', (3, 3, 'L2')), ('VarQECUnitary', (4, 2, 'L1')), ('EntanglementFormationModel', (3, 2, 6, None)), ('ConcurrenceModel', (2, 3, 5, 3)),
     ('DensityMatrixGMEModel', ((2, 2, 2), 4, 2, 1)), ('DensityMatrixGMEModel', ((2, 3), 4, 4, 2)), ('QueryGroverQuantumModel', (3, True)),
+    # models on the Pade logarithm / the polar square root that the first list does not reach (tiny sizes)
+    # (relative entropy: the model state must have full rank - num_state >= dA dB product states, kext >= 4 for 2x2 - else log(sigma) is outside the domain)
+    ('AutodiffCHAREE', (2, 2, 5, 'ree')), ('AutodiffCHAREE', (2, 2, 2, 'gellmann')), ('PureBosonicExt', (2, 2, 4, 'ree')), ('PureBosonicExt', (2, 2, 2, 'gellmann')),
+    ('VarQEC', (3, 3, 'L2', False)), ('Stiefel[polar]', (3, 2, 'c', None)), ('Stiefel[polar]', (3, 2, 'r', 2)),
 ]
 MODEL_POINTS = ['g*0.5', 'g*2', 'g2', 'ramp']
 
@@ -1973,10 +2055,11 @@ def build_cases(tier, seed):
                (2, 'tiny', 2, ['fix', 'gen'], ['gen'], False, True),
                (3, 'ext', 1, ['zero', 'fix', 'gen'], allp, True, True), (4, 'ext', 1, ['zero', 'fix', 'gen'], allp, True, True), (3, 'ext_s', 2, ['fix'], ['gen'], False, True)]
     else:
-        cfg = [(3, 'full', 1, ['zero', 'fix', 'gen'], allp, True, True), (3, 'full', 2, ['zero', 'fix'], allp, False), (3, 'full', 2, ['gen'], ['gen'], False, True),
+        cfg = [(3, 'full', 1, ['zero', 'fix', 'gen'], allp, True, True), (3, 'full', 2, ['zero', 'fix'], allp, False), (3, 'full', 2, ['gen'], ['gen'], False),
                (2, 'tiny', 3, ['zero', 'fix', 'gen'], allp, False, True), (3, 'reduced', 3, ['fix'], ['gen'], False),
                (3, 'ext', 1, ['zero', 'fix', 'gen'], allp, True, True), (4, 'ext', 1, ['zero', 'fix', 'gen'], allp, True, True),
-               (3, 'ext', 2, ['zero', 'fix', 'gen'], allp, False, True), (4, 'ext', 2, ['fix', 'gen'], ['gen'], False, True)]
+               (3, 'ext', 2, ['zero', 'fix', 'gen'], allp, False, True), (4, 'ext', 2, ['fix', 'gen'], ['gen'], False, True),
+               (3, 'reduced', 2, ['fix', 'gen'], ['gen'], False, True)]
     cases += _prog_cases(cfg, info['programs'])
     funs = [('sqrtm',), ('repeat', 1), ('repeat', 2), ('repeat', 3)]
     funs += [('logm', 6, 8), ('logm', 4, 6)] if quick else [('logm', ns, m) for ns in (4, 5, 6) for m in (6, 8)]
@@ -2015,9 +2098,11 @@ def build_cases(tier, seed):
             for frozen in itertools.combinations(['a', 'b', 'w'], r):
                 for stale in (False, True):
                     for custom in (False, True):
-                        cases.append({'kind': 'bridge', 'order': list(order), 'frozen': list(frozen), 'stale': stale, 'custom': custom})
-                        nb += 1
-    info['bridge'] = {'configurations': nb, 'calls_per_configuration': 6}
+                        for dtype in ('f64', 'f32'):
+                            for unused in (False, True):
+                                cases.append({'kind': 'bridge', 'order': list(order), 'frozen': list(frozen), 'stale': stale, 'custom': custom, 'dtype': dtype, 'unused': unused})
+                                nb += 1
+    info['bridge'] = {'configurations': nb, 'calls_per_configuration': 6, 'parameter_dtypes': ['float64', 'float32'], 'unused_trainable_parameter': [False, True]}
     methods = [('pade', 6, 8)] if quick else [('pade', 6, 8), ('pade', 4, 6), ('pade', 5, 8)]
     info['entropy'] = {'methods': [list(m) for m in methods], 'd': [2, 3, 4], 'fields': ['c', 'r']}
     for m in methods:
